@@ -164,6 +164,8 @@ func (c *Coordinator) handleError(ctx context.Context, err error, tssProcesses [
 			log.Err(tssErr).Str("SessionID", sessionID).Msgf("Tss process failed with error %+v", tssErr)
 			excludedPeers, err := common.PeersFromParties(tssErr.Culprits())
 			if err != nil {
+				cancel()
+				_ = rp.Wait()
 				return err
 			}
 			rp.Go(func(ctx context.Context) error { return c.retry(ctx, tssProcesses, resultChn, excludedPeers) })
@@ -177,6 +179,8 @@ func (c *Coordinator) handleError(ctx context.Context, err error, tssProcesses [
 		}
 	default:
 		{
+			cancel()
+			_ = rp.Wait()
 			return err
 		}
 	}
